@@ -270,11 +270,60 @@ def make_finder(cfg, **over):
                               brightest=c['brightest'], peakmax=c['peakmax'],
                               xycoords=c.get('xycoords'),
                               min_separation=c['min_separation'] or None)
-    yy, xx = np.mgrid[0:7, 0:7]
-    kern = np.exp(-((xx - 3) ** 2 + (yy - 3) ** 2) / (2 * (c['fwhm'] / 2.355) ** 2))
+    ky, kx = c.get('kshape', [7, 7])
+    yy, xx = np.mgrid[0:ky, 0:kx]
+    kern = np.exp(-((xx - kx // 2) ** 2 + (yy - ky // 2) ** 2)
+                  / (2 * (c['fwhm'] / 2.355) ** 2))
     return StarFinder(c['threshold'], kern, min_separation=max(c['min_separation'], 1.0),
                       exclude_border=c['exclude_border'],
                       brightest=c['brightest'], peakmax=c['peakmax'])
+
+
+def _star_rows(ctx, cfg, img, mask, rows_open, cols):
+    """StarFinder rows: the reported centroid / flux / max_value must be the
+    first-moment centroid, sum and maximum of the non-negative data in the
+    kernel-sized, image-trimmed window around *some* pixel within the kernel
+    of the reported centroid; with exclude_border no such window may be
+    trimmed by the image edge."""
+    from astropy.nddata import overlap_slices
+    if mask is not None:
+        return
+    ky, kx = cfg.get('kshape', [7, 7])
+    ny, nx = img.shape
+    fi, mi = cols.index('flux'), cols.index('max_value')
+    for r in rows_open:
+        x, y = r[0], r[1]
+        if not (-0.5 <= x <= nx - 0.5 and -0.5 <= y <= ny - 0.5):
+            raise Violation('row_outside_image',
+                            f'star: centroid ({x:.3f},{y:.3f}) outside the '
+                            f'{ny}x{nx} image', kind='star')
+        found = untrimmed = False
+        for iy in range(int(round(y)) - ky // 2 - 1, int(round(y)) + ky // 2 + 2):
+            for ix in range(int(round(x)) - kx // 2 - 1, int(round(x)) + kx // 2 + 2):
+                if not (0 <= ix < nx and 0 <= iy < ny):
+                    continue
+                slc, _ = overlap_slices(img.shape, (ky, kx), (iy, ix), mode='trim')
+                cut = np.clip(img[slc], 0.0, None)
+                tot = float(cut.sum())
+                if tot <= 0 or abs(tot - r[fi]) > 1e-9 * abs(tot):
+                    continue
+                jj, ii = np.mgrid[slc]
+                cx, cy = float((cut * ii).sum() / tot), float((cut * jj).sum() / tot)
+                if abs(cx - x) <= 1e-7 and abs(cy - y) <= 1e-7 \
+                        and abs(float(cut.max()) - r[mi]) <= 1e-9 * abs(r[mi]):
+                    found = True
+                    untrimmed = untrimmed or cut.shape == (ky, kx)
+        if found and cfg['exclude_border'] and not untrimmed:
+            raise Violation('border_source_kept',
+                            f'star: source at ({x:.2f},{y:.2f}) can only come '
+                            f'from a window trimmed by the image edge although '
+                            f'exclude_border=True', kind='star')
+        if not found:
+            raise Violation('star_row_not_reproducible',
+                            f'star: row (x={x:.4f}, y={y:.4f}, flux={r[fi]:.6g}) '
+                            f'is not the centroid/flux/maximum of the {ky}x{kx} '
+                            f'window around any nearby pixel', kind='star')
+    ctx.event('star_rows_checked')
 
 
 OPEN = dict(sharplo=-1e30, sharphi=1e30, roundlo=-1e30, roundhi=1e30,
@@ -401,6 +450,7 @@ def _after_select(case, ctx, cfg, kind, f, img, mask, t, nwarn, rows_open, cols,
             if k not in ('mag', 'daofind_mag') and not math.isfinite(v):
                 raise Violation('nonfinite_row', f'{kind}: {k}={v}')
     if kind == 'star':
+        _star_rows(ctx, cfg, img, mask, rows_open, cols)
         return
     # ---- candidate peaks vs an independently convolved image
     K = f.kernel
@@ -514,8 +564,9 @@ def star_cases(draw):
     kind = draw(st.sampled_from(['dao', 'dao', 'iraf', 'star']))
     wide = draw(st.booleans())
     cfg = {'kind': kind, 'threshold': draw(st.sampled_from([2.0, 5.0, 10.0])),
-           'fwhm': draw(st.sampled_from([2.0, 3.0, 3.5])),
-           'ratio': draw(st.sampled_from([1.0, 1.0, 0.7])),
+           'fwhm': draw(st.sampled_from([2.0, 3.0, 3.5, 5.0])),
+           'ratio': draw(st.sampled_from([1.0, 1.0, 0.7, 0.4])),
+           'kshape': draw(st.sampled_from([[7, 7], [7, 7], [5, 9], [9, 5]])),
            'theta': draw(st.sampled_from([0.0, 30.0])),
            'sigma_radius': draw(st.sampled_from([1.5, 2.0])),
            'sharplo': -1e30 if wide else draw(st.sampled_from([0.2, 0.4, 0.5])),
